@@ -2,6 +2,7 @@ import Lean.Data.Json
 import VsbModel.Model.Split
 import VsbModel.Model.ChunkedHash
 import VsbModel.Model.Sync
+import VsbModel.Model.Rotate
 
 /-!
 Line-protocol driver for the executable models: one request per line `<op> <json>`, one JSON
@@ -128,12 +129,99 @@ def opSync (j : Json) : Except String Json := do
   pure (Json.mkObj [("acts", Json.arr (acts.map (fun a => Json.str (actStr a))).toArray), ("ok", ok'),
     ("target", Json.arr (tgt.map (fun e => Json.arr #[(e.1 : Json), natsJson e.2])).toArray)])
 
+/-! ## listing / rotate -/
+open Vsb.Listing in
+def parseFType (j : Json) : Except String FType := do
+  match (← j.getStr?) with
+  | "file" => pure .file
+  | "dir" => pure .dir
+  | _ => pure .other
+
+open Vsb.Listing in
+def ftypeStr : FType → String
+  | .file => "file" | .dir => "dir" | .other => "other"
+
+open Vsb.Listing in
+def parseStorage (j : Json) : Except String (List REntry) := do
+  (← j.getArr?).toList.mapM (fun r => do
+    let name ← (← r.getObjVal? "name").getStr?
+    let type ← parseFType (← r.getObjVal? "type")
+    let entries ← match r.getObjVal? "entries" with
+      | .ok .null => pure none
+      | .error _ => pure none
+      | .ok es => do
+        let l ← (← es.getArr?).toList.mapM (fun e => do
+          let n ← (← e.getObjVal? "name").getStr?
+          let t ← parseFType (← e.getObjVal? "type")
+          let files ← match e.getObjVal? "files" with
+            | .ok .null => pure none
+            | .error _ => pure none
+            | .ok fs => do
+              let l ← (← fs.getArr?).toList.mapM (fun f => do
+                let a ← f.getArr?
+                match a.toList with
+                | [n, t] => pure ((← n.getStr?), (← parseFType t))
+                | _ => throw "file")
+              pure (some l)
+          pure ({ name := n, type := t, files := files } : GEntry))
+        pure (some l)
+    pure ({ name := name, type := type, entries := entries } : REntry))
+
+open Vsb.Listing in
+def storageJson (st : List REntry) : Json :=
+  Json.arr ((sortBy (·.name) st).map (fun r => Json.mkObj [("name", r.name), ("type", ftypeStr r.type),
+    ("entries", match r.entries with
+      | none => Json.null
+      | some es => Json.arr ((sortBy (·.name) es).map (fun e => Json.mkObj [("name", e.name), ("type", ftypeStr e.type),
+          ("files", match e.files with
+            | none => Json.null
+            | some fs => Json.arr ((sortBy (·.1) fs).map (fun f => Json.arr #[Json.str f.1, Json.str (ftypeStr f.2)])).toArray)])).toArray)])).toArray
+
+open Vsb.Listing in
+def logJson : Log → Json
+  | .unexpectedInRoot n => Json.arr #["unexpected-root", n]
+  | .unexpectedInGroup g n => Json.arr #["unexpected-group", g, n]
+  | .temporary g n => Json.arr #["temporary", g, n]
+  | .suspiciousFirst g n => Json.arr #["suspicious-first", g, n]
+  | .backupReadError g n => Json.arr #["backup-read-error", g, n]
+
+open Vsb.Listing in
+def groupsJson (gs : List Group) : Json :=
+  Json.arr (gs.map (fun g => Json.mkObj [("name", g.name), ("backups", Json.arr (g.backups.map Json.str).toArray),
+    ("temps", Json.arr (g.temps.map Json.str).toArray)])).toArray
+
+open Vsb.Listing in
+def opList (j : Json) : Except String Json := do
+  let st ← parseStorage (← j.getObjVal? "storage")
+  let cloud := (j.getObjVal? "cloud").toOption.bind (fun x => x.getBool?.toOption) |>.getD false
+  match listRoot (if cloud then cloudTraits else localTraits) st with
+  | .err => pure (Json.mkObj [("result", "err")])
+  | .ok gs ok logs => pure (Json.mkObj [("result", "ok"), ("groups", groupsJson gs), ("ok", ok),
+      ("logs", Json.arr (logs.map logJson).toArray)])
+
+open Vsb.Listing Vsb.Rotate in
+def opRotate (j : Json) : Except String Json := do
+  let st ← parseStorage (← j.getObjVal? "storage")
+  let today ← (← j.getObjVal? "today").getStr?
+  let bname ← (← j.getObjVal? "bname").getStr?
+  let maxPer ← (← j.getObjVal? "max_per_group").getNat?
+  let maxGroups ← (← j.getObjVal? "max_groups").getNat?
+  let walkOk : Option Bool := match j.getObjVal? "walk_ok" with
+    | .ok (.bool b) => some b
+    | _ => none
+  match backupRun st today bname maxPer maxGroups walkOk with
+  | .failed st' why => pure (Json.mkObj [("result", "failed"), ("why", why), ("storage", storageJson st')])
+  | .done st' g b del ok => pure (Json.mkObj [("result", "done"), ("group", g), ("backup", b),
+      ("deleted", Json.arr (del.map Json.str).toArray), ("ok", ok), ("storage", storageJson st')])
+
 def dispatch (op : String) (j : Json) : Except String Json :=
   match op with
   | "split" => opSplit j
   | "streamread" => opStreamRead j
   | "chash" => opChash j
   | "sync" => opSync j
+  | "list" => opList j
+  | "rotate" => opRotate j
   | _ => .error s!"unknown op {op}"
 
 def handle (line : String) : String :=
